@@ -322,7 +322,7 @@ fn a_atom3_prefix2<const N: usize>(ci: bool) {
 //@ harness: a_atom3_prefix2_n4
 //@ rss: 26
 //@ props: C08 C02 C01
-//@ tier: thorough
+//@ tier: deep
 //@ mem: 30
 //@ timeout: 3000
 //@ cost: 3000
@@ -411,7 +411,7 @@ fn a_hasbol_atom<const N: usize>(from_zero: bool) {
 //@ harness: a_hasbol_atom_m_n3
 //@ rss: 24
 //@ props: C12 C08 C01
-//@ tier: thorough
+//@ tier: deep
 //@ cost: 3000
 //@ timeout: 3400
 //@ mem: 30
